@@ -219,4 +219,27 @@ def dgramRecv (ri : Tmo) (bufsize : Nat) (t : Tmo) (sock : List SockCall) (w : W
 def dgramSend (ri : Tmo) (data : Bytes) (t : Tmo) (sock : List SockCall) (w : World) : RetryRes :=
   retry (classifySend .plain) (.call data.length 1) ri sock t w
 
+/-! ## UDPNetworkClient -/
+
+/-- `UDPNetworkClient.recv_packet(timeout=…)`: `lock_with_timeout(receive lock, timeout)`, then
+    `DatagramEndpoint.recv_packet(timeout=remaining)` = one `transport.recv(remaining)`; `__convert_socket_error` only
+    rewrites the closed-socket errnos (never scripted).  `lk = none`: the bare transport call. -/
+def udpClientRecv (ri : Tmo) (bufsize : Nat) (lk : Option LockEv) (t : Tmo) (sock : List SockCall) (w : World) : RetryRes :=
+  match lk with
+  | none => dgramRecv ri bufsize t sock w
+  | some ev =>
+    match lockWithTimeout ev t w with
+    | .timeout w' => ⟨.timeout, .bad, t, sock, w'⟩
+    | .acquired t' w' => dgramRecv ri bufsize t' sock w'
+
+/-- `UDPNetworkClient.send_packet(packet, timeout=…)`: `lock_with_timeout(send lock, timeout)`, then one
+    `transport.send(datagram, remaining)` -/
+def udpClientSend (ri : Tmo) (data : Bytes) (lk : Option LockEv) (t : Tmo) (sock : List SockCall) (w : World) : RetryRes :=
+  match lk with
+  | none => dgramSend ri data t sock w
+  | some ev =>
+    match lockWithTimeout ev t w with
+    | .timeout w' => ⟨.timeout, .bad, t, sock, w'⟩
+    | .acquired t' w' => dgramSend ri data t' sock w'
+
 end EasyNet
